@@ -22,8 +22,35 @@ from .values import (
     Ref,
     State,
     View,
+    XReal,
     is_z3,
 )
+
+
+def xr(v: Any) -> XReal:
+    """Coerce a numeric value to an extended real."""
+    v = lift(v)
+    if isinstance(v, XReal):
+        return v
+    if is_z3(v) and (smt.is_int(v) or smt.is_real(v)):
+        return XReal(z3.BoolVal(False), to_real(v))
+    raise EngineError(f"not a number: {v!r}")
+
+
+def xr_lt(a: XReal, b: XReal):
+    return z3.And(z3.Not(a.isinf), z3.Or(b.isinf, a.v < b.v))
+
+
+def xr_le(a: XReal, b: XReal):
+    return z3.Or(b.isinf, z3.And(z3.Not(a.isinf), a.v <= b.v))
+
+
+def xr_eq(a: XReal, b: XReal):
+    return z3.Or(z3.And(a.isinf, b.isinf), z3.And(z3.Not(a.isinf), z3.Not(b.isinf), a.v == b.v))
+
+
+def xr_ite(c, a: XReal, b: XReal) -> XReal:
+    return XReal(z3.simplify(z3.If(c, a.isinf, b.isinf)), z3.simplify(z3.If(c, a.v, b.v)))
 
 
 def lift(v: Any) -> Any:
@@ -33,8 +60,10 @@ def lift(v: Any) -> Any:
     if isinstance(v, int):
         return z3.IntVal(v)
     if isinstance(v, float):
-        if v == float("inf") or v == float("-inf") or v != v:
-            raise EngineError("non-finite float literal must go through the extended-real model")
+        if v == float("inf"):
+            return XReal(z3.BoolVal(True), z3.RealVal(0))
+        if v == float("-inf") or v != v:
+            raise EngineError("-inf / NaN float literal is outside the extended-real model")
         return z3.RealVal(repr(v))
     if isinstance(v, (bytes, bytearray)):
         return smt.bytes_lit(bytes(v))
@@ -84,6 +113,8 @@ def truth(st: State, v: Any):
         raise EngineError(f"truth of sort {v.sort()}")
     if isinstance(v, Opt):
         return z3.And(z3.Not(v.isnone), truth(st, v.val))
+    if isinstance(v, XReal):
+        return z3.Or(v.isinf, v.v != 0)
     if isinstance(v, View):
         return (v.hi - v.lo) != 0
     if isinstance(v, Ref):
@@ -117,6 +148,15 @@ def to_real(v):
 
 def binop(st: State, op: ast.operator, a: Any, b: Any) -> Any:
     a, b = lift(a), lift(b)
+    if isinstance(a, XReal) or isinstance(b, XReal):
+        xa, xb = xr(a), xr(b)
+        if isinstance(op, ast.Sub):
+            if not z3.is_false(z3.simplify(xb.isinf)):
+                raise EngineError("subtraction of a possibly infinite value (inf - inf is NaN)")
+            return XReal(xa.isinf, z3.simplify(xa.v - xb.v))
+        if isinstance(op, ast.Add):
+            return XReal(z3.simplify(z3.Or(xa.isinf, xb.isinf)), z3.simplify(xa.v + xb.v))
+        raise EngineError(f"extended-real operation {type(op).__name__}")
     if isinstance(op, ast.Add):
         if is_byteslike(a) and is_byteslike(b):
             return z3.Concat(as_bytes(st, a), as_bytes(st, b))
@@ -163,6 +203,8 @@ def values_equal(st: State, a: Any, b: Any):
         return z3.Or(z3.And(a.isnone, b.isnone), z3.And(z3.Not(a.isnone), z3.Not(b.isnone), values_equal(st, a.val, b.val)))
     if a is None or b is None:
         return z3.BoolVal(False)
+    if isinstance(a, XReal) or isinstance(b, XReal):
+        return xr_eq(xr(a), xr(b))
     if is_byteslike(a) and is_byteslike(b):
         return as_bytes(st, a) == as_bytes(st, b)
     if is_z3(a) and is_z3(b):
@@ -252,6 +294,16 @@ def compare(st: State, op: ast.cmpop, a: Any, b: Any):
         else:
             raise EngineError(f"`in` on {a!r}, {b!r}")
         return r if isinstance(op, ast.In) else z3.Not(r)
+    if isinstance(a, XReal) or isinstance(b, XReal):
+        xa, xb = xr(a), xr(b)
+        if isinstance(op, ast.Lt):
+            return xr_lt(xa, xb)
+        if isinstance(op, ast.LtE):
+            return xr_le(xa, xb)
+        if isinstance(op, ast.Gt):
+            return xr_lt(xb, xa)
+        if isinstance(op, ast.GtE):
+            return xr_le(xb, xa)
     if is_z3(a) and is_z3(b) and (smt.is_int(a) or smt.is_real(a)) and (smt.is_int(b) or smt.is_real(b)):
         if smt.is_real(a) or smt.is_real(b):
             a, b = to_real(a), to_real(b)
